@@ -495,3 +495,17 @@ package js_ast
 //@   ensures nullish-vs-other-literal: (is(left, *EBoolean) || is(left, *ENumber) || is(left, *EBigInt) || is(left, *EString)) && (is(right, *ENull) || is(right, *EUndefined)) ==> result1 && !result0
 //@   ensures strings-by-code-units: is(left, *EString) && is(right, *EString) && left.(*EString) != nil && right.(*EString) != nil ==> result1
 //@   ensures only-literals: result1 ==> (is(left, *EInlinedEnum) || is(left, *ENull) || is(left, *EUndefined) || is(left, *EBoolean) || is(left, *ENumber) || is(left, *EBigInt) || is(left, *EString))
+
+// C03: "(x !== 0)" may be replaced by "x" in a boolean context only if x is always an int32/uint32 (never NaN, a
+// string, null, …). For the operators whose VALUE is one of their operands' values (?:, ||, &&) that must hold of
+// EVERY operand that can be selected; the only leaf form that qualifies is the unsigned shift (>>> never yields a BigInt).
+//@ func isInt32OrUint32
+//@   arith int
+//@   prop C03
+//@   opt heappure
+//@   modifies nothing
+//@   ensures only-value-selecting-forms: result ==> is(data, *EBinary) || is(data, *EIf)
+//@   ensures binary-operators: result && is(data, *EBinary) ==> data.(*EBinary).Op == BinOpUShr || data.(*EBinary).Op == BinOpLogicalOr || data.(*EBinary).Op == BinOpLogicalAnd
+//@   ensures logical-needs-both: result && is(data, *EBinary) && data.(*EBinary).Op != BinOpUShr ==>
+//@       isInt32OrUint32(data.(*EBinary).Left.Data) && isInt32OrUint32(data.(*EBinary).Right.Data)
+//@   ensures conditional-needs-both: result && is(data, *EIf) ==> isInt32OrUint32(data.(*EIf).Yes.Data) && isInt32OrUint32(data.(*EIf).No.Data)
